@@ -20,9 +20,9 @@ PLAN = dict(
                           "only conservation, saturation and one-release-per-decrement at quiescence"],
     floor=dict(quick=150, thorough=1500),
     tiers=dict(
-        quick=[det("rel", H, "cs-rel", 16, 110, 4, tso=True, time_cap=30),
-               det("dbg", H, "cs-dbg", 16, 45, 4, tso=True, time_cap=25),
-               det("witness-buffer-get-reserved", H, "cs-rel", 4, 150, 4, tso=False, time_cap=25, args=["--witness"])],
+        quick=[det("rel", H, "cs-rel", 16, 85, 4, tso=True, time_cap=28),
+               det("dbg", H, "cs-dbg", 16, 35, 4, tso=True, time_cap=22),
+               det("witness-buffer-get-reserved", H, "cs-rel", 3, 120, 4, tso=False, time_cap=15, args=["--witness"])],
         thorough=[det("rel", H, "cs-rel", 16, 2200, 5, tso=True, time_cap=330),
                   det("dbg", H, "cs-dbg", 16, 700, 5, tso=True, time_cap=240),
                   det("enum-conflict", H, "cs-rel", 16, 40, 2, tso=True, time_cap=120, enum="conflict", enum_cap=120),
